@@ -6,7 +6,7 @@ use crate::models::text as model;
 use bio::alignment::{Alignment, AlignmentMode, AlignmentOperation, AlignmentOperation::*};
 
 pub struct C10;
-const N_DIRECTED: u64 = 10;
+const N_DIRECTED: u64 = 12;
 
 /// Validate a Myers alignment against pattern/text under the configured equality.
 fn check_aln(aln: &Alignment, p: &[u8], t: &[u8], cfg: &EqCfg, end: usize, dist: usize) -> Result<(), String> {
@@ -281,7 +281,7 @@ impl C10 {
                 Obj::new()
                     .s("impl", imp)
                     .b("pattern", p)
-                    .b("text", t)
+                    .b("text", tail(t)).u("text_len", t.len() as u64)
                     .u("k", k as u64)
                     .d("equality", cfg)
                     .u("search_number_on_this_object", si as u64)
@@ -434,7 +434,7 @@ impl C10 {
                     ctx.sample("traceback", || {
                         Obj::new()
                             .b("pattern", p)
-                            .b("text", t)
+                            .b("text", tail(t)).u("text_len", t.len() as u64)
                             .u("k", k as u64)
                             .d("first_hit", &h.first().map(|h| (h.aln.ystart, h.aln.yend, h.dist, &h.aln.operations)))
                             .u("hits", h.len() as u64)
@@ -480,6 +480,25 @@ impl Monitor for C10 {
             1 => b"ABC".to_vec(),
             _ => b"ACGT".to_vec(),
         };
+        if g >= 10 && g < N_DIRECTED {
+            // hits whose end positions lie beyond 2^16 (eager and lazy APIs, both implementations)
+            if ctx.tiny() {
+                return;
+            }
+            let alpha = b"ACGT".to_vec();
+            let m = if g == 10 { 12 } else { 70 };
+            let p = rng.bytes_over(&alpha, m);
+            let mut t = rng.bytes_over(&alpha, 70_000);
+            for at in [100usize, 65_500, 65_536 - m / 2, 66_000, 70_000 - m] {
+                t[at..at + m].copy_from_slice(&p);
+                if at % 3 == 0 {
+                    t[at + m / 2] = if p[m / 2] == b'A' { b'C' } else { b'A' };
+                }
+            }
+            ctx.count("texts_longer_than_65536", 1);
+            let searches = vec![(t.clone(), 2), (t[..300].to_vec(), 1), (t, 1)];
+            return self.search(ctx, rng, &p, &EqCfg::default(), &searches);
+        }
         if g < N_DIRECTED {
             let cfg = if g % 4 == 3 { EqCfg { ambig: vec![(alpha[0], vec![alpha[1]])], wild: vec![*alpha.last().unwrap()] } } else { EqCfg::default() };
             let m = [5usize, 8, 9, 16, 17, 32, 33, 63, 64, 12][(g % 10) as usize];
